@@ -306,15 +306,23 @@ package utreexo
 //@   ensures err == nil ==> forall k in 0..len(idx): 0 <= idx[k] && idx[k] < len(stump.Roots)
 //@   ensures err == nil ==> forall k in 0..len(idx): stump.Roots[idx[k]] == rootCandidates[k] && idx[k] < len(rootPositions) && rootPositions[idx[k]] == candidatePositions[k]
 //@   ensures err == nil ==> forall k in 1..len(idx): idx[k-1] > idx[k]
+//@   ensures err == nil ==> forall a in 0..len(idx): forall b in 0..len(idx): a < b ==> idx[a] > idx[b]
 //@   loop 1: invariant len(rootIndexes) <= len(rootCandidates) && len(rootIndexes) <= i && len(candidatePositions) == len(rootCandidates)
 //@   loop 1: invariant forall k in 0..len(rootIndexes): len(stump.Roots) - i <= rootIndexes[k] && rootIndexes[k] < len(stump.Roots) && stump.Roots[rootIndexes[k]] == rootCandidates[k]
 //@   loop 1: invariant forall k in 0..len(rootIndexes): rootIndexes[k] < len(rootPositions) && rootPositions[rootIndexes[k]] == candidatePositions[k]
 //@   loop 1: invariant forall k in 1..len(rootIndexes): rootIndexes[k-1] > rootIndexes[k]
+//@   loop 1: invariant forall a in 0..len(rootIndexes): forall b in 0..len(rootIndexes): a < b ==> rootIndexes[a] > rootIndexes[b]
 
 //@ func (s *Stump) del(delHashes []Hash, proof Proof) (hashes []Hash, positions []uint64, err error)
+//@   ghost rootIndexes, modifiedRoots
 //@   ensures s.NumLeaves == old(s.NumLeaves) && len(s.Roots) == old(len(s.Roots))
 //@   ensures err != nil ==> forall k in 0..len(s.Roots): s.Roots[k] == old(s.Roots)[k]
+//@   ensures err == nil ==> len(rootIndexes) == len(modifiedRoots)
+//@   ensures err == nil ==> forall k in 0..len(rootIndexes): 0 <= rootIndexes[k] && rootIndexes[k] < len(s.Roots) && s.Roots[rootIndexes[k]] == modifiedRoots[k]
+//@   ensures err == nil ==> forall j in 0..len(s.Roots): (exists k in 0..len(rootIndexes): rootIndexes[k] == j) || s.Roots[j] == old(s.Roots)[j]
 //@   loop 1: invariant s.NumLeaves == old(s.NumLeaves) && len(s.Roots) == old(len(s.Roots))
+//@   loop 1: invariant forall k in 0..iter_1: s.Roots[rootIndexes[k]] == modifiedRoots[k]
+//@   loop 1: invariant forall j in 0..len(s.Roots): (exists k in 0..iter_1: rootIndexes[k] == j) || s.Roots[j] == old(s.Roots)[j]
 
 //@ func rootsToDestory(numAdds uint64, numLeaves uint64, origRoots []Hash) (res []uint64)
 //@   requires len(origRoots) == int(popcount(numLeaves)) && numAdds <= 18446744073709551615 - numLeaves && numAdds < pow2(62)
